@@ -39,6 +39,49 @@ CLAIMED = {
         ref="4/C25"),
 }
 
+CLAIMED.update({
+    "C09": dict(
+        text="Proof (Verus) of op_unknown against the opcode cost rule written from the statement: success iff (opcode well formed, "
+             "argument atoms, base <= budget, (multiplier+1)*base <= 2^32-1), cost == (multiplier+1)*base with the add-/multiply-/"
+             "concat-like base formulas over the real constants (pinned to their documented values), nil result, allocator unchanged; "
+             "for NEW_COST_MODEL unconditionally, for the pre-hard-fork model outside known finding F2 (unchecked arithmetic), which a "
+             "strict twin keeps visible.",
+        note=TB_COMMON + "Strict mode (NO_UNKNOWN_OPS) routing in ChiaDialect::op is not yet under contract; Atom::as_ref assumed.",
+        tech="contract-based deductive verification (Verus): loop invariants equating the running cost with a recursive spec function",
+        ref="4/C09"),
+    "C15": dict(
+        text="Proof: (Verus) write_atom / length-prefix writer / node_to_stream / node_to_bytes(_limit) produce exactly ser(tree) for the "
+             "recursive specification ser; (Kani, complete over all inputs) the prefix writer equals the format's prefix for every size, "
+             "decode_size_with_offset inverts it, and is_canonical_atom accepts exactly minimal prefixes. Tree-level decoders "
+             "(node_from_stream, serialized_length_*) are not yet under contract: the round trip is proved at atom/prefix level and on the "
+             "encoder side only.",
+        note=TB_COMMON + "io::Write modelled as a budgeted all-or-nothing sink (assumption R10); Kani/CBMC for the byte-level harnesses, "
+             "built with the cfg-guarded hooks.",
+        tech="contract-based deductive verification (Verus) + Kani function-level proofs with fully symbolic inputs (loop bounds <= 8, unwinding assertions)",
+        ref="4/C15"),
+    "C16": dict(
+        text="Partial: (Kani, complete over all inputs) decode_size_with_offset and is_canonical_atom are total (no panic) on every prefix "
+             "and agree with the format definition. node_from_bytes / parse_triples / tree_hash_from_stream agreement is NOT yet under contract.",
+        note="Kani 0.68 / CBMC 6.11; claim limited to the two byte-level functions shared by all classic decoders.",
+        tech="Kani proofs over fully symbolic prefixes (complete: loop bounds are the prefix length)",
+        ref="4/C16"),
+    "C21": dict(
+        text="Proof (Kani, complete): every 56-bit value encodes to the shortest varint and decodes back (strict and lenient); every byte "
+             "string decodes to at most one value consuming exactly the declared length; strict accepts exactly the shortest encodings. "
+             "Loops are bounded by the constant 8, inputs fully symbolic, unwinding assertions on.",
+        note="Kani 0.68 / CBMC 6.11 / kissat; the harness text (spec_size and the value denoted are written from the statement).",
+        tech="Kani harnesses over full-domain symbolic inputs on the compiled real crate (complete, not bounded)",
+        ref="4/C21"),
+    "C29": dict(
+        text="Proof (Verus): node_to_bytes_limit returns exactly ser(tree) when |ser(tree)| <= L and Err(OutOfMemory) otherwise, through "
+             "contracts on From<io::Error>, LimitedWriter::write (repo code, proved a budgeted sink), the prefix/atom writers and "
+             "node_to_stream (stack invariant). node_to_bytes_backrefs_limit: the limit wrapper is proved against an ASSUMED contract of "
+             "node_to_stream_backrefs (search structures out of reach). The original defect is repaired by a fix: commit.",
+        note=TB_COMMON + "io::Write as budgeted sink (R10); write_all assumed to follow write for such sinks; ? converts errors with From::from (axiom).",
+        tech="contract-based deductive verification (Verus) with a trait-level writer abstraction",
+        ref="4/C29"),
+})
+
 NOT_APPLICABLE = {
     "C01": "the oracle is the Python clvm package; a contract cannot refer to it and a hand transcription would be a model of the oracle",
     "C17": "back-reference search runs on salted HashMaps via entry(), BitVec, function-pointer caches and sha256 keys: outside Verus's fragment and CBMC's reach; determinism is relational",
@@ -66,7 +109,7 @@ def main():
                 "thorough_cmd": f"./check {p} --tier thorough",
                 "evidence_file": f"/verif/evidence/{p}.json",
                 "replay_cmd_template": f"./check {p} --replay {{path}}",
-                "engine": "verus-contracts",
+                "engine": "kani-harnesses" if p in ("C21", "C16") else "verus-contracts",
                 "level_claimed": {"category": c.get("cat", "proof"), "text": c["text"], "design_ref": c["ref"]},
                 "level_note": c["note"],
                 "technique": c["tech"],
@@ -78,12 +121,14 @@ def main():
         "setup_cmd": "./setup.sh",
         "hooks": {
             "guard": "chia_network_clvm_rs_verif",
-            "enable": "RUSTFLAGS='--cfg chia_network_clvm_rs_verif' (no hook is currently needed: Verus units are extracted from source text, Kani reaches public items)",
+            "enable": "RUSTFLAGS='--cfg chia_network_clvm_rs_verif' (set by tools/kani_runner.py for the Kani harness crate; Verus units are extracted from source text and need no hook)",
             "baseline_off_cmd": "cd /repo && cargo test --workspace --no-fail-fast --offline",
-            "source_commits": [],
+            "source_commits": ["c190d6e verif hooks: cfg(chia_network_clvm_rs_verif)-guarded re-exports of private byte-level serde helpers"],
             "add_only": True,
         },
         "engines": [
+            {"name": "kani-harnesses", "path": "/verif/tools/kani_runner.py", "serves_properties": ["C15", "C16", "C21"],
+             "kind_free_text": "cargo kani on /verif/kani (path dependency on /repo, hooks cfg on): fully symbolic inputs, constant loop bounds, unwinding assertions"},
             {"name": "verus-contracts", "path": "/verif/tools/runner.py", "serves_properties": sorted(CLAIMED),
              "kind_free_text": "per run: extract the real functions from /repo's working tree (tools/extract.py), splice contracts from contracts/*.vspec, verify each unit with single-file Verus, map failed obligations to labelled clauses, replay against the compiled crate (replay/)"},
         ],
